@@ -2,6 +2,7 @@ package main
 
 import (
 	"fmt"
+	"go/constant"
 	"go/token"
 	"go/types"
 	"sort"
@@ -322,12 +323,15 @@ func checkC01(c *Ctx, r *Report) {
 	r.rule("C01.R9", "the clients wait the specified 5 s for an answer: the account server moves the money before it answers, so an answer that arrives within 5 s must still be taken (a shorter wait abandons a debit that has happened - the reservation is never booked)", 2)
 	r.rule("C01.R10", "a rating group is charged from its first report on and keeps its mode afterwards: FindRatingGroup tests membership in the subscriber's list of groups, element by element", 1)
 	r.rule("C01.R11", "a subscriber's credit-control steps do not interleave: every exchange with the rating function and the account server is made with the subscriber's lock held (shared with C19.R10) - a step that reads the reservation, waits for a peer and writes it back unlocked wipes what another session of the subscriber booked meanwhile", 3)
+	r.rule("C01.R13", "the answer to a subscriber's debit reaches that subscriber: answer channel, state machine and client are made per subscriber context and stay wired together (shared with C19.R9) - an answer delivered to another subscriber's channel leaves the account debited and the reservation not booked", 6)
+	r.rule("C01.R14", "a request that is refused moves no credit: the unknown-subscriber / unknown-session edges return before credit control runs (shared with C12.R3)", 4)
 	r.rule("C01.R12", "every SUPI format the CHF admits has a Subscription-Id type of its own in the credit-control requests (two formats with one type share an account and a tariff)", 1)
 	r.rule("C01.R7", "the reserve step and the debit step of a rating group exclude each other within one request (the mode is not re-read after it may have been switched)", 1)
 	r.rule("C01.R6", "account server stores the balance before it answers (shared with C07.R5)", 1)
 
-	r.shareFrom(c, checkC19, map[string]string{"C19.R10": "C01.R11"})
+	r.shareFrom(c, checkC19, map[string]string{"C19.R10": "C01.R11", "C19.R9": "C01.R13"})
 	c01AdmittedSubscribersDistinct(c, r, "C01.R12")
+	r.shareFrom(c, checkC12, map[string]string{"C12.R3": "C01.R14"})
 	m := buildChfModel(c)
 	m.checkModeExclusive(c, r, "C01.R7")
 	f, fe := m.f, m.fe
@@ -438,9 +442,10 @@ func checkC01(c *Ctx, r *Report) {
 					r.viol("C01.R2", k, posOf(c, s.at), "REFUND_ACCOUNT without a Requested-Service-Unit amount")
 					continue
 				}
-				sig := m.signature(fe.eval(amt.val))
-				p := m.priceOf(fe.eval(amt.val))
-				rel := relOnEdge(fe, p, R, nil, blk)
+				av, ablk := correlatedPhi(amt.val, blk)
+				sig := m.signature(fe.eval(av))
+				p := m.priceOf(fe.eval(av))
+				rel := relOnEdge(fe, p, R, nil, ablk)
 				okAmt := sig == "+reserved -price"
 				r.check(okAmt && rel["<"], "C01.R2", k, posOf(c, amt.at), "refund = R - price on the edge price < R",
 					fmt.Sprintf("refund amount is %s (class %q) on an edge where price<R is %v: the unused reservation is not refunded exactly", fe.eval(amt.val), sig, rel["<"]))
@@ -452,9 +457,10 @@ func checkC01(c *Ctx, r *Report) {
 					r.viol("C01.R2", k, posOf(c, s.at), "final DIRECT_DEBITING must be a TERMINATION_REQUEST carrying a Used-Service-Unit amount")
 					continue
 				}
-				sig := m.signature(fe.eval(amt.val))
-				p := m.priceOf(fe.eval(amt.val))
-				rel := relOnEdge(fe, p, R, nil, blk)
+				av, ablk := correlatedPhi(amt.val, blk)
+				sig := m.signature(fe.eval(av))
+				p := m.priceOf(fe.eval(av))
+				rel := relOnEdge(fe, p, R, nil, ablk)
 				r.check(sig == "+price -reserved" && rel[">="], "C01.R2", k, posOf(c, amt.at), "debit = price - R on the edge price >= R",
 					fmt.Sprintf("debit amount is %s (class %q) on an edge where price>=R is %v: the excess usage is not debited exactly (branches swapped?)", fe.eval(amt.val), sig, rel[">="]))
 			default:
@@ -800,7 +806,8 @@ func checkC06(c *Ctx, r *Report) {
 	r.rule("C06.R7", "the money a grant is measured against is that of the request's own subscriber and rating group, in full width (shared with C07.R7/C08.R6)", 4)
 	r.rule("C06.R8", "the CHF turns money into units with the unit cost the rating function applied (shared with C08.R3): a smaller decoded cost grants more units than the reserved money buys", 2)
 	r.rule("C06.R9", "a rating group keeps the debit mode (and with it the final-unit state) it was put in: FindRatingGroup finds every group of the subscriber's list (shared with C01.R10)", 1)
-	r.rule("C06.R10", "every response a create or an update returns was produced by the credit control of that request (no replayed grants)", 2)
+	r.rule("C06.R10", "every response a create or an update returns was produced by the credit control of that request (no replayed grants), and a release succeeds only after the credit control of the usage it reports", 3)
+	r.rule("C06.R11", "the final settlement clears the reservation it has settled, also when price and reservation are equal (shared with C01.R2): a consumed reservation left standing is refunded and granted from again", 4)
 	r.rule("C06.R6", "the reservation, unit-cost and mode cells are changed only by the accounting transitions the other rules describe, and the context that holds them is not dropped on the request path (shared with C01.R5)", 4)
 	r.rule("C06.R5", "the rating function converts reserved money into units by floor division: AllowedUnits = quota div unit cost, Price = units x unit cost (shared with C08.R2)", 2)
 
@@ -1076,6 +1083,7 @@ func checkC06(c *Ctx, r *Report) {
 	abmfRules(c, r, "C06.R4", "C06.R4", "", "", "", "")
 	r.shareFrom(c, checkC08, map[string]string{"C08.R3": "C06.R8"})
 	c06GrantsComeFromCreditControl(c, r, "C06.R10")
+	r.shareFrom(c, checkC01, map[string]string{"C01.R2": "C06.R11"})
 
 	// ---- R5: the CHF trusts the rating function to turn money into units
 	rfRules(c, r, "", "C06.R5", "", "", "C06.R5")
@@ -1165,4 +1173,67 @@ func keysOfInt64(m map[int64]bool) []int64 {
 	}
 	sort.Slice(out, func(i, j int) bool { return out[i] < out[j] })
 	return out
+}
+
+// correlatedPhi: a helper that returns (flag, amount) leaves, once inlined, two merge nodes in
+// one block - the flag and the amount - and the caller branches on the flag.  On an edge of that
+// branch only the predecessors of the merge block that supplied this value of the flag are
+// possible; when they all supply the same amount, that is the amount on the edge, and the
+// relations that held where it was computed hold for it.  Returns v and blk unchanged when the
+// pattern does not apply.
+func correlatedPhi(v ssa.Value, blk *ssa.BasicBlock) (ssa.Value, *ssa.BasicBlock) {
+	v0 := v
+	for {
+		if cv, ok := v.(*ssa.Convert); ok {
+			v = cv.X
+			continue
+		}
+		break
+	}
+	ph, ok := v.(*ssa.Phi)
+	if !ok {
+		return v0, blk
+	}
+	B := ph.Block()
+	f := B.Parent()
+	for _, d := range f.Blocks {
+		if len(d.Instrs) == 0 || len(d.Succs) != 2 || d.Succs[0] == d.Succs[1] {
+			continue
+		}
+		ifi, ok := d.Instrs[len(d.Instrs)-1].(*ssa.If)
+		if !ok {
+			continue
+		}
+		cp, ok := ifi.Cond.(*ssa.Phi)
+		if !ok || cp.Block() != B {
+			continue
+		}
+		for side := 0; side < 2; side++ {
+			if !edgeDominates(d, d.Succs[side], blk) {
+				continue
+			}
+			var val ssa.Value
+			var from *ssa.BasicBlock
+			okAll := true
+			for i, e := range cp.Edges {
+				k, isC := e.(*ssa.Const)
+				if !isC || k.Value == nil || k.Value.Kind() != constant.Bool {
+					okAll = false
+					break
+				}
+				if constant.BoolVal(k.Value) != (side == 0) {
+					continue
+				}
+				if val != nil && val != ph.Edges[i] {
+					okAll = false
+					break
+				}
+				val, from = ph.Edges[i], B.Preds[i]
+			}
+			if okAll && val != nil {
+				return val, from
+			}
+		}
+	}
+	return v0, blk
 }
